@@ -1,6 +1,7 @@
 """C07 — classification depends only on the current rules and the transaction, not on history.
 
-Proof: C07/Props.v (cache transparency by invariant, history independence refuted / partial / fixed, frame)
+Proof: C07/Props.v (cache transparency by invariant; history independence for all histories, tied to the source's
+reset of _cached_engine; frame; the pre-e98b1f7 refutation kept as history)
 over C07/Model.v, whose cache-key and state-writer facts are re-read from the source on every run
 (tools/c07_cache_keys.py -> Gen/C07CacheKeys.v, compared in Props.v).
 Direct oracle: every operation of a generated history, run in ONE interpreter, against the same operation
@@ -686,7 +687,7 @@ def main(tier):
         'the caller holding the last returned rules, one long-lived MerchantEngine re-parsed',
         'EXTRACTED from source every run (tools/c07_cache_keys.py, fail closed): dict names, every syntactic use of the two caches, '
         'key = bare argument, stored value = parse+validate / re.compile(key, constant flags), parse() resets, every writer/reader '
-        'of _cached_engine, which variant (reset at entry or not) the tree is',
+        'of _cached_engine, and that get_all_rules resets it on entry (c07_history_independent_of_source type-checks only then)',
         'cached ASTs / compiled patterns are treated as immutable values; cache keys are str; file content does not change '
         'between a load and the classifications that use it; set/dict order, object identities and message texts are not compared',
     ]
@@ -707,6 +708,11 @@ def main(tier):
         broken.append({'kind': 'hygiene', 'detail': res['hygiene']})
     facts = c07_cache_keys.generate(SRC)[1]
     fx = bool(facts and facts['cached']['resets'])
+    if facts and not fx:
+        broken[:] = [b for b in broken if b.get('obligation') != 'c07_history_independent_of_source']
+        broken.insert(0, {'kind': 'broken-obligation', 'obligation': 'c07_history_independent_of_source',
+                          'detail': 'get_all_rules no longer resets _cached_engine on entry (regression of e98b1f7): the source is the '
+                                    'variant for which c07_before_e98b1f7_refuted holds'})
 
     rnd = random.Random(run.seed * 7919 + 7)
     n_uni, n_hist, n_sys, n_twin = (12, 10, 2, 3) if tier == 'quick' else (120, 36, 24, 10)
@@ -798,7 +804,7 @@ def main(tier):
                            'detail': {'universe': unis[ui], 'history': all_hists[ui][hi], 'implementation': all_results[ui][hi],
                                       'n': len(bad), 'model_variant_fixed': fx}})
     phases['model_s'] = round(time.time() - t1, 1)
-    unknown_fail = [s for s in failing if s != KNOWN_SIG or not any(f.get('signature') == KNOWN_SIG for f in run.findings)]
+    unknown_fail = [s for s in failing if s != KNOWN_SIG or not any(f.get('signature') == KNOWN_SIG and f.get('status') == 'finding' for f in run.findings)]
     if broken and not unknown_fail:
         b = broken[0]
         run.violation('broken', {'kind': b['kind'], 'obligation': b.get('obligation'), 'broken': broken,
@@ -828,12 +834,15 @@ def main(tier):
         'samples': [{'universe_files': unis[0]['files'], 'history': all_hists[0][0]}, {'history': all_hists[-1][-1]}],
         'universes': len(unis), 'histories': sum(map(len, all_hists)), 'in_process_vs_fresh_comparisons': n_cmp,
         'fresh_interpreters_spawned': spawned, 'history_length_histogram': hist_len, 'loads_per_history_histogram': nloads,
-        'model_vs_impl_histories_in_coq': model_n, 'model_variant': 'fixed (reset at entry)' if fx else 'unfixed (as /repo)',
+        'model_vs_impl_histories_in_coq': model_n, 'model_variant': 'reset at entry (as /repo since e98b1f7)' if fx else 'NO reset (regression to before e98b1f7)',
         'failing_signatures': {k: len(v) for k, v in failing.items()}, 'translation_failures': tfails,
         'discards': discards, 'phase_seconds': phases,
-        'claimed_for_this_tree': (['c07_history_independent_fixed', 'c07_history_independent_of_source'] if fx else
-                                  ['c07_history_independent_refuted', 'c07_history_independent_partial']) +
-        ['c07_expr_cache_transparent', 'c07_regex_cache_transparent', 'c07_cache_invariant', 'c07_classify_frame']})
+        'claimed_for_this_tree': ['c07_history_independent_fixed', 'c07_history_independent_of_source',
+                                  'c07_expr_cache_transparent', 'c07_regex_cache_transparent', 'c07_cache_invariant',
+                                  'c07_outputs_cache_free', 'c07_classify_frame', 'c07_history_independent_partial'],
+        'history_not_claimed_of_this_tree': ['c07_before_e98b1f7_refuted', 'c07_before_e98b1f7_refuted_generally '
+                                             '(model variant without the reset; finding fixed by e98b1f7)'],
+        'get_all_rules_resets_cached_engine': fx})
     shutil.rmtree(WORKDIR, ignore_errors=True)
     run.finish()
 
